@@ -523,6 +523,14 @@ class IEG:
                 fe = self.resolve(f, t["args"][0], (n.bb, -1))
                 child = self._new_frame(cb, f, n.bb, 'closurecall', dict(f.subst), fe, t)
                 return [(self._node(child, 0, None), 'call')]
+            if cb is None and norm(func.get("trait", "")) in ("std::ops::Fn", "std::ops::FnMut", "std::ops::FnOnce") and len(t["args"]) == 2 and f.parent is not None:
+                # a closure that reached an inlined generic helper as an argument (`fn relate<R>(.., on_static: impl FnOnce(..) -> R)`)
+                fe = ir.peel(self.resolve(f, t["args"][0], (n.bb, -1)))
+                if fe[0] == 'agg' and fe[1] == 'closure':
+                    cb2 = self.facts.by_path.get(fe[2])
+                    if cb2 is not None and not cb2.is_coroutine and not cb2.span.get("n") and not any(fr.body is cb2 for fr in f.stack()):
+                        child = self._new_frame(cb2, f, n.bb, 'closurecall', dict(f.subst), fe, t)
+                        return [(self._node(child, 0, None), 'call')]
             if cb is not None and (self.inline_filter is None or self.inline_filter(cb) or self.facts.is_new_helper(cb.npath)):
                 child = self._new_frame(cb, f, n.bb, 'call', self.call_subst(f, func, cb), call_term=t)
                 return [(self._node(child, 0, None), 'call')]
